@@ -61,5 +61,7 @@ def main(tier, seed, jobs):
                     if a != b:
                         print('   first difference:', a, b)
                         break
+    import monitor_selftest
+    bad += monitor_selftest.main()
     print('selftest: %d cases, %d problems, %.1fs' % (total, bad, time.time() - t0))
     return 0 if bad == 0 else 2
